@@ -13,7 +13,7 @@ MODFLAG=""
 if [ -n "${VERIF_REPO:-}" ] && [ "$REPO" != "/repo" ]; then
   # maintenance: run the checks against another copy of the repository (a scratch worktree holding a
   # seeded change) without touching /repo: separate work dir, go.mod replaced to that copy
-  W="$VERIF/.work/alt"
+  W="$VERIF/.work/alt-$(echo "$REPO" | md5sum | cut -c1-8)"
   mkdir -p "$W"
   sed "s|=> /repo|=> $REPO|" "$VERIF/go.mod" > "$W/alt.mod"; cp "$VERIF/go.sum" "$W/alt.sum" 2>/dev/null
   MODFLAG="-modfile=$W/alt.mod"
